@@ -15,6 +15,10 @@ RULE = (
     "other frames define decoys; the observed winner must be the first match of the reference order; the empty "
     "subset must raise; a winner bound to None still wins; an Environment instance passed as env is used as is.  "
     "Non-trivial: at least two scopes define the name"
+    '  Added: keyword and nested roles, dotted arguments, back-quoted names with outer spaces, the Python '
+    'builtin abs (not a scope), identifiers that are not NFKC-stable with the normalised spelling as decoy, '
+    'sequences of new frames with / without a column of the name (each order on a design of its own), one '
+    'Environment object reused with other extra namespaces. '
 )
 ASSUMPTIONS = ["reference order: data, built-ins, caller locals, caller globals, extra_namespace (callees: without data)"]
 
